@@ -49,9 +49,20 @@ def gen(ctx):
                 seps.append(rng.bytes(rng.range(1, 3), alphabet=b" \t\r\n\x0b\x0c"))
             yield "cmdrt %s %s %s" % (v, hexlist(args), hexlist(seps))
 
+def gen_sweep4(ctx):
+    """every 4-byte first token (no white space, quote, backslash, NUL): which ones does the real parser accept?  Complete in the
+    thorough tier (16 shards, a few minutes); in the quick tier this stage runs only as the search for a failing input when a
+    proof obligation or the correspondence of C19 is broken, for a bounded time (a scattered tenth of the space)"""
+    secs = 3000 if ctx.get("tier") == "thorough" else 100
+    for i in range(16):
+        yield "verbsweep %d 16 %d" % (i, secs)
+    if ctx.get("tier") == "thorough":
+        ctx["scopes"].append("all 250^4 four-byte first tokens without white space / quote / backslash / NUL: the accepted ones are exactly the case variants of the four-letter verbs")
+
 PROP = {
     "id": "C19",
-    "stages": [{"name": "pure", "target": "h_pure", "gen": gen}],
+    "stages": [{"name": "pure", "target": "h_pure", "gen": gen},
+               {"name": "sweep4", "target": "h_pure", "gen": gen_sweep4, "shard": 1, "thorough_only": True, "fallback": True}],
     "trivial_tags": ["invalid"],
     "rule": "real parse_command on the stated exhaustive scopes, random full-range byte lines, verb-led lines with quote/escape-rich tails and "
             "random argument lists rendered with quoting (round trip); exception type classified. Non-trivial = the line parses to a command; "
